@@ -12,6 +12,7 @@ Each table is a list of fields in wire order:
   ("sub", table, name)      embedded fixed structure
   ("list", name)            sequence of embedded variable structures (each encodes its own length)
   ("lenof16", name)         16-bit length in bytes of the named list
+  ("const", nbytes, value)  a fixed value the specification prescribes at this place (vendor id, subtype code)
 
 SIZEOF gives the OFP_ASSERT(sizeof(...)) values of openflow.h used as a cross-check of the tables.
 """
@@ -141,6 +142,8 @@ def fixed_size(table):
       n += 1
     elif k in ("type16", "len16", "lenof16"):
       n += 2
+    elif k == "const":
+      n += f[1]
     elif k == "sub":
       n += fixed_size(f[1])
   return n
@@ -160,6 +163,8 @@ def layout(table, vals, typecode, total_len):
       out = out + be(vals[f[2]], f[1])
     elif k == "pad":
       out = out + bytes(f[1])
+    elif k == "const":
+      out = out + be(f[2], f[1])
     elif k == "mac" or k == "ip":
       out = out + vals[f[1]]
     elif k == "zs":
